@@ -6,6 +6,10 @@ props = [json.loads(l) for l in open(os.path.join(V, 'properties.jsonl'))]
 
 # id -> (level, engine, technique, level text, level note, design_ref)
 CHECKS = {
+ 'C15': ('model_checking', 'E1-sched', 'preemption-bounded stateless DFS over interleavings of 2..3 concurrent real operations at store-call granularity (blob + metadata + vmetadata gated) in a synctest bubble, differential oracle against solo runs; separate free-running -race companion pass (sampling)',
+         'Six (thorough eight) closed scenarios mixing upload / overlapping upload / download / label set / split upload / diamond commit with internal concurrency 2; every interleaving with <=2 preemptions for the overlapping uploads and <=1 for the others (thorough 3) is executed and every operation result, the blob store and the previously committed bundle are compared with the solo runs. The data-race clause is only sampled: the same bodies run free under the race detector at GOMAXPROCS 1/4/16 and the result is reported separately as race_pass.',
+         'The controlled scheduler cannot observe data races (its hand-offs are happens-before edges), and interleavings finer than a store call inside one process are not enumerated; the race pass is sampling from another family, kept as a companion and never counted as exhaustive.',
+         'DESIGN.md §3 C15, §4'),
  'C18': ('model_checking', 'E2-seq', 'explicit-state BFS over operation histories of the real mutable file system (fresh instance + replay per state, exact de-duplication on model + implementation dump incl. inode allocator), POSIX tree reference model, worker subprocess with fatal-error capture',
          'Every history up to depth 4 (thorough 6) over create / mkdir / write / truncate / rename (all directory x name pairs) / unlink / rmdir / lookup / forget with kernel-protocol lookup counts, names {a,b}: each transition is compared with the model (result and errno), and in each distinct state getattr, ReadDir (resume protocol, 3 buffer sizes), ReadFile, inode uniqueness and a Commit + download are checked.',
          'Driven through fuseutil.FileSystem (no kernel); staging directory on tmpfs; committed entry names are compared after stripping the leading slash the mutable mount gives them; ENOSYS counts as declined when the state is unchanged.',
